@@ -522,3 +522,26 @@ PLAN['C12'] = {
                     'whole-block answers come from sequential runs of the same code (their correctness is the subject of C01, C02, C09, C10)',
                     'interior points are the nine verif hook sites; suspension elsewhere inside a critical section is not exercised'],
 }
+
+
+def drive(tier, histories=None, maxn=None, blocks=None):
+    q = tier == 'quick'
+    return {'kind': 'drive', 'name': 'drive', 'cmd': 'drive', 'trace_module': 'CoreTrace',
+            'trace_cfg': {'invariants': ['TraceReport']},
+            'x': 'histories=%d,maxn=%d,blocks=%d' % (histories or (10 if q else 60), maxn or (32 if q else 64), blocks or (18 if q else 40)),
+            'timeout': 900 if q else 7200}
+
+
+DRIVE_RULE = (' In addition (R->T) a driver runs long random block histories (deletion shapes: nothing, everything, aligned subtrees, '
+              'sibling pairs, newest leaves, single leaves, random subsets, in ascending/descending/shuffled request order; 0..17 '
+              'additions; undo of the newest block with probability 1/5, then redo on another branch) against Stump, Pollard and '
+              'full/partial MapPollard (TotalRows 63 and 0) with block proofs taken from the real prover, and records every action and '
+              'everything the instances show; TLC (spec/CoreTrace.tla) replays the logged actions on (n, live) and compares every '
+              'recorded leaf count, root list, leaf position, proof and update data with spec/Forest.tla; every deviating event '
+              'is reported and confirmed by running its history alone.')
+for _p in ('C01', 'C02', 'C06', 'C10', 'C11'):
+    PLAN[_p]['stages'] = (lambda f: (lambda tier, seed: f(tier, seed) + [drive(tier)]))(PLAN[_p]['stages'])
+    PLAN[_p]['rule'] += DRIVE_RULE
+    for _t in ('quick', 'thorough'):
+        PLAN[_p]['bounds'][_t] += ('; driver: 10 histories of 18 blocks up to 32 leaves' if _t == 'quick'
+                                   else '; driver: 60 histories of 40 blocks up to 64 leaves')
